@@ -1,5 +1,5 @@
 ENGINES = [
-  {'name': 'symx', 'path': '/verif/symx', 'serves_properties': ['C04'],
+  {'name': 'symx', 'path': '/verif/symx', 'serves_properties': ['C04', 'C05'],
    'kind_free_text': 'symbolic execution of the real Python code: proxy ints over z3 bit-vectors + DFS path explorer; every path outcome is a solver obligation'},
 ]
 NOTES = 'See DESIGN.md. Exit codes of every check: 0 held / 1 replay-confirmed violation / 2 inconclusive (never on the unchanged tree by sizing).'
@@ -12,4 +12,8 @@ CHECKS['C04'] = dict(
   text='bounded symbolic model checking of the real PythonBits.py: for each operator/operand form and each listed width n (up to 1023) every feasible path of the real method is compared by z3 with the SMT-LIB bit-vector operator at width n and with the documented acceptance interval; unsat = holds for all 2^(2n) operand pairs and all int operands of n+3 bits at that width',
   ref='7 C04', technique='symbolic execution of the real Python (symx) + z3 bit-vector queries, per path',
   note='trusted: z3, symx proxy-int semantics (self-tested differentially), the listed builtin stand-ins; // and % only up to 16 bits; widths are a listed finite set; __hash__ and text rendering outside')
+CHECKS['C05'] = dict(
+  text='bounded symbolic model checking of the real Bits.__getitem__/__setitem__ and helpers: value, BOTH slice bounds, index and step are signed symbolic ints (negative, zero, equal, reversed and out-of-range bounds inside one query), stored values are Bits of several widths and signed ints; every path outcome is compared by z3 with Extract / the frame equation / Concat / ZeroExt / SignExt / BVRed* or the documented error; clog2 against 2^(k-1) < N <= 2^k for all N < 2^64 (2^1024 thorough)',
+  ref='7 C05', technique='symbolic execution of the real Python (symx) + z3 bit-vector queries, per path; libm behind a contract-constrained nondeterministic stub',
+  note='trusted: z3, symx, stand-ins; widths are a listed finite set (quick up to 64, thorough up to 255 and 1023 for selected shapes); class-form zext/sext/trunc to an unsuitable width outside')
 for p in CHECKS: NA.pop(p, None)
